@@ -20,7 +20,7 @@ TRUSTED = TRUSTED_M1
 
 def gen(seed, index):
     rng = rng_for(PID, seed, index)
-    G = g.G(rng)
+    G = g.G(rng, tags=True, tempi=True)      # containers carry tags and tempi (opaque ids in the model)
     t = G.tree(kind=rng.choice(["S", "S", "S", "P", "P", "L", None]))
     if rng.random() < 0.2:
         t = share_leaves(rng, t)
